@@ -1456,6 +1456,11 @@ func knownNonNil(t *Term) bool {
 		case "fmt.Errorf", "errors.New":
 			return true
 		}
+		if c, ok := t.V.(*ssa.Call); ok {
+			if f := c.Common().StaticCallee(); f != nil && returnsFresh(f, 0) {
+				return true
+			}
+		}
 	case "alloc", "fn", "makeclosure":
 		return true
 	case "load":
@@ -1466,4 +1471,45 @@ func knownNonNil(t *Term) bool {
 		}
 	}
 	return false
+}
+
+var freshMemo = map[*ssa.Function]int{}
+
+// returnsFresh: a single-result function every return of which yields a new allocation (a constructor such as
+// cli.NewExitError): its result is never nil.
+func returnsFresh(f *ssa.Function, depth int) bool {
+	if v, ok := freshMemo[f]; ok {
+		return v == 1
+	}
+	freshMemo[f] = 0
+	if depth > 2 || len(f.Blocks) == 0 || f.Signature.Results().Len() != 1 {
+		return false
+	}
+	n := 0
+	for _, b := range f.Blocks {
+		r, ok := b.Instrs[len(b.Instrs)-1].(*ssa.Return)
+		if !ok {
+			continue
+		}
+		n++
+		v := r.Results[0]
+		if mi, ok := v.(*ssa.MakeInterface); ok {
+			v = mi.X
+		}
+		switch x := v.(type) {
+		case *ssa.Alloc:
+		case *ssa.Call:
+			g := x.Common().StaticCallee()
+			if g == nil || !returnsFresh(g, depth+1) {
+				return false
+			}
+		default:
+			return false
+		}
+	}
+	if n == 0 {
+		return false
+	}
+	freshMemo[f] = 1
+	return true
 }
